@@ -66,6 +66,9 @@ def run(tier, v):
     rD = vlib.tlc("MC_C07", pid=PID, workers=4, env={"VERIF_MODE": "model", "VERIF_DEV": "D07_shared_hpack", "VERIF_LENS": "1"}, timeout=600)
     if not rD.inv_violated:
         raise vlib.ToolError("anti-vacuity: the shared-table model should violate NonInterference")
+    rE = vlib.tlc("MC_C07", pid=PID, workers=4, env={"VERIF_MODE": "model", "VERIF_DEV": "D07_reset_on_success", "VERIF_LENS": "1"}, timeout=600)
+    if not rE.inv_violated:
+        raise vlib.ToolError("anti-vacuity: a decoder that is reset only after a successful decode should violate NonInterference")
     rC = vlib.tlc("MC_C07", pid=PID, workers=1, env={"VERIF_MODE": "conns", "VERIF_DEV": "none", "VERIF_LENS": "1"}, timeout=600, coverage=False)
     h2 = rC.lines["STAT"][0]
     # ---- connection library
@@ -83,15 +86,17 @@ def run(tier, v):
         "h1": tcp_conn(5, two(R1, 30), resp=S1),
         "h2_ins_ref": tcp_conn(6, two(bytes(h2["ins_ref"]), 60)), "h2_bare_ref": tcp_conn(7, two(bytes(h2["bare_ref"]), 50)),
         "h2_zero": tcp_conn(8, two(bytes(h2["zero_then_ins"]), 45)), "h2_legit": tcp_conn(9, two(bytes(h2["legit"]), 62)),
+        "h2_zero_fail": tcp_conn(10, two(bytes(h2["zero_fail"]), 40)), "h2_ins_fail": tcp_conn(11, two(bytes(h2["ins_fail"]), 55)),
     }
     for c in lib.values():
         # drop the empty data segment of plain handshakes
         c["frames"] = [f for f in c["frames"] if not (len(f) == 54 and f[47] == 0x18)]
     sets = {
-        "http": [("h2_ins_ref", "h2_bare_ref"), ("h2_zero", "h2_legit"), ("h2_ins_ref", "h2_legit"), ("h1", "h2_bare_ref"), ("h2_bare_ref", "h2_ins_ref", "h2_zero"), ("h1", "h2_zero", "h2_legit")],
+        "http": [("h2_ins_ref", "h2_bare_ref"), ("h2_zero", "h2_legit"), ("h2_ins_ref", "h2_legit"), ("h1", "h2_bare_ref"), ("h2_bare_ref", "h2_ins_ref", "h2_zero"), ("h1", "h2_zero", "h2_legit"),
+                 ("h2_zero_fail", "h2_legit"), ("h2_ins_fail", "h2_bare_ref"), ("h2_zero_fail", "h2_ins_ref", "h2_ins_fail")],
         "tls": [("tls_a", "tls_b"), ("tls_a", "h1"), ("tls_a", "tls_b", "h2_legit")],
         "tcp": [("tcp_a", "tcp_b"), ("tcp_a", "h1"), ("tcp_a", "tls_a", "tcp_b")],
-        "uni": [("tcp_a", "tls_a", "h2_ins_ref"), ("h2_ins_ref", "h2_bare_ref"), ("h1", "tls_b", "h2_zero"), ("h2_zero", "h2_legit")],
+        "uni": [("tcp_a", "tls_a", "h2_ins_ref"), ("h2_ins_ref", "h2_bare_ref"), ("h1", "tls_b", "h2_zero"), ("h2_zero", "h2_legit"), ("h2_zero_fail", "h2_legit"), ("h2_ins_fail", "h2_bare_ref")],
     }
     cap = 4000 if tier == "thorough" else 150
     lines, meta = [], {}
